@@ -83,3 +83,28 @@ def exc_is(raised, cls):
 
 def old(x):
     return x
+
+
+def unpack_f32(b):
+    """IEEE-754 single precision value of 4 big-endian bytes"""
+    import struct
+    return struct.unpack('>f', bytes(b[0:4]))[0]
+
+
+def round_n(x, n):
+    return round(x, n)
+
+
+def s8(x):
+    """signed value of one byte"""
+    return x - 256 if x >= 128 else x
+
+
+def bits_label(v, table):
+    """labels of the set bits 0..31 of v in ascending order (empty labels skipped), joined by ', '"""
+    out = []
+    for i in range(32):
+        if (v >> i) & 1 == 1:
+            if table.get(i, "err%d" % i):
+                out.append(table.get(i, "err%d" % i))
+    return ", ".join(out)
